@@ -107,12 +107,14 @@ Definition expected_tokens (stmt_text : string) : list string :=
   rewrite_named (S (List.length ts)) ts [].
 
 (** full-line comments of the statement: lines that start with "--" and are not
-    the annotation *)
+    the annotation, and lines that consist of exactly one block comment *)
 Definition expected_comments (stmt_text : string) : list string :=
   flat_map (fun l => if has_prefix l "-- name:" then []
                      else if has_prefix l "/* name:" && has_suffix l "*/" then []
                      else if has_prefix l "--" then [drop 2 l]
-                     else if has_prefix l "/*" && has_suffix l "*/" then [trim_suffix (drop 2 l) "*/"]
+                     else if has_prefix l "/*"
+                             && match String.index 2 "*/" l with Some i => Nat.eqb (i + 2) (String.length l) | None => false end
+                          then [trim_suffix (drop 2 l) "*/"]      (* the line IS one block comment *)
                      else [])
            (map drop_cr (split_nl (trim_space stmt_text))).
 
